@@ -236,6 +236,17 @@ class PyroInvoke(Contract):
                      ("the reply was encoded with the request's serializer", st.get(msg, "serializer_id").e == margs["serializer_id"].e if margs else z3.BoolVal(False)),
                      ("a reply flagged as exception is never returned as a value",
                       z3.Or(st.get(a["self"], "_pyroRawWireResponse").e, bit(st.get(msg, "flags").e, 0) == 0, bit(st.get(msg, "flags").e, 4) == 1))]
+            # C10, client half of the stream announcement: a reply flagged ITEMSTREAMRESULT comes back as a stream iterator bound to THIS proxy (never as plain data), and
+            # nothing else does (the raw-wire-response mode hands back the message itself)
+            is_iter = isinstance(result, VObj) and result.cls == "Pyro5.client._StreamResultIterator"
+            raw = st.get(a["self"], "_pyroRawWireResponse").e
+            streamflag = bit(st.get(msg, "flags").e, 4) == 1
+            if is_iter:
+                prox = st.get(result, "proxy")
+                post.append(("C10: a stream iterator is returned only for a reply flagged as item stream, and it is bound to this proxy",
+                             z3.And(streamflag, z3.Not(raw), z3.BoolVal(isinstance(prox, VObj) and prox.ref == a["self"].ref))))
+            else:
+                post.append(("C10: a reply flagged as item stream is never returned as plain data", z3.Or(raw, z3.Not(streamflag))))
             ctx = st.genv["current_context"]
             ra = st.get(ctx, "response_annotations")
             post.append(("C12: afterwards the response annotations are this reply's annotations or a fresh empty dict",
